@@ -258,7 +258,10 @@ class World:
         self.external_root = root is not None
         self.real_crash = real_crash    # crash = os._exit (a real process)
         self.root = root or tempfile.mkdtemp(
-            prefix=f"verif-{os.getpid()}-{tag}-", dir=SCRATCH_BASE)
+            # (fixed width: chameleon abbreviates long file names in
+            # error messages to their last characters - where the cut
+            # lands must not depend on the number of digits of the pid)
+            prefix=f"verif-{os.getpid():07d}-{tag}-", dir=SCRATCH_BASE)
         self.sched: Scheduler | None = None
         self.block = block
         # plan: {"<proc>#<n>": {"kind": ...}}  n = 1-based fs call of proc
